@@ -23,6 +23,7 @@ import itertools
 import re
 
 from . import arithcorr as ac
+from . import gen
 from . import coqterm as ct
 from . import env
 
@@ -305,6 +306,22 @@ def _d27_case():
     return {'host': h, 'k0': 1, 'call': ['weighted', ['enum', 'XAIG'], [[w, l] for w, l in zip(D27_WEIGHTS, h['inputs'])]]}
 
 
+def _sentinel_label_cases():
+    """operand gates of the host that carry the label of the generators' own placeholder constant (exported as
+    _utils.PLACEHOLDER_STR) or the empty label: legal gate labels, so "every host circuit and every choice of operand
+    gates" includes them; an unfilled slot of a result list must be recognised by position, not by its content"""
+    ph = '_PLACEHOLDER_STR_'
+    h = gen.rename_dump(ac.bare_host(4), {'3': ph})
+    out = []
+    for be in (False, True):
+        out += [{'host': h, 'k0': 1, 'call': ['shift', 5, ['0', '1'], ['2', ph], be]},
+                {'host': h, 'k0': 1, 'call': ['shift', 4, [ph, '1'], ['2', '0'], be]},
+                {'host': h, 'k0': 1, 'call': ['shift', 2, ['0', '1'], [ph, '2'], be]},
+                {'host': h, 'k0': 1, 'call': ['shift', 1, ['0', ph, '1'], ['2'], be]},
+                {'host': h, 'k0': 1, 'call': ['shift', 0, [ph], ['2', '1'], be]}]
+    return out
+
+
 def corpus_cases():
     """minimal inputs of the defects found on the pinned tree (D5, D6, D7); run first on every check"""
     h2 = ac.bare_host(2)
@@ -316,7 +333,7 @@ def corpus_cases():
         {'host': h2, 'k0': 1, 'call': ['shift', 2, ['0'], ['1'], False]},
         {'host': h2, 'k0': 1, 'call': ['shift', 3, ['0'], ['1'], True]},
         _d27_case(),
-    ]
+    ] + _sentinel_label_cases()
 
 
 def quick_cases(rng, max_n=12, max_pow2=32, wlen=4, wmax=3, n_random_w=40, pp_max=6, shift_max=5, thorough=False):
